@@ -51,6 +51,9 @@ func parse_regexp_pattern(regexp_token *Token, regexp string, index int) (AstExp
 
 	if next_index < len(regexp) {
 		if regexp[next_index] == '|' {
+			if next_index+1 >= len(regexp) {
+				return nil, next_index, NewParseError(regexp_token, "Unexpected end of regexp after '|'")
+			}
 			end, idx, err := parse_regexp_pattern(regexp_token, regexp, next_index+1)
 			return &AstBranch{&AstSubExpr{[]AstExpression{start}}, end}, idx, err
 		} else {
@@ -62,13 +65,11 @@ func parse_regexp_pattern(regexp_token *Token, regexp string, index int) (AstExp
 }
 
 func parse_regexp_number(regexp_token *Token, regexp string, index int) (int, int, error) {
-	c := regexp[index]
 	result := ""
 	idx := index
-	for c >= '0' && c <= '9' {
-		result += string(c)
+	for idx < len(regexp) && regexp[idx] >= '0' && regexp[idx] <= '9' {
+		result += string(regexp[idx])
 		idx += 1
-		c = regexp[idx]
 	}
 	if result == "" {
 		return -1, index, NewParseError(regexp_token, "Unexpected Token. Expected number")
@@ -93,6 +94,9 @@ func parse_regexp_literal(regexp_token *Token, regexp string, index int) (AstExp
 		next_index += 1
 		return &AstPrimary{start}, next_index, nil
 	} else if c == '\\' {
+		if index+1 >= len(regexp) {
+			return nil, index, NewParseError(regexp_token, "Unexpected end of regexp after '\\'")
+		}
 		start, next_index, err := parse_regexp_escape_characters(regexp_token, regexp, index+1)
 		if err != nil {
 			return nil, next_index, err
@@ -107,6 +111,9 @@ func parse_regexp_literal(regexp_token *Token, regexp string, index int) (AstExp
 		exp.Body = &AstPrimary{start}
 		return exp, idx, nil
 	} else if c == '(' {
+		if index+1 >= len(regexp) {
+			return nil, index, NewParseError(regexp_token, "Unexpected end of regexp after '('")
+		}
 		start, next_index, err := parse_regexp_groups(regexp_token, regexp, index+1)
 		if err != nil {
 			return nil, next_index, err
@@ -214,6 +221,9 @@ func parse_regexp_class_ranges(regexp_token *Token, regexp string, index int) (A
 		}
 
 		if regexp[next_index] == '-' {
+			if next_index+1 >= len(regexp) {
+				return nil, next_index, NewParseError(regexp_token, "Unexpected end of regexp")
+			}
 			to, end_index, err := parse_regexp_class_atom_string(regexp_token, regexp, next_index+1)
 			if err != nil {
 				return nil, end_index, err
@@ -265,9 +275,15 @@ func parse_regexp_quantifier(regexp_token *Token, regexp string, index int) (*As
 		if err != nil {
 			return nil, idx, err
 		}
+		if idx >= len(regexp) {
+			return nil, idx, NewParseError(regexp_token, "Unexpected end of regexp. Expected '}'")
+		}
 		comma_or_brace := regexp[idx]
 
 		if comma_or_brace == ',' {
+			if idx+1 >= len(regexp) {
+				return nil, idx, NewParseError(regexp_token, "Unexpected end of regexp. Expected '}'")
+			}
 			if regexp[idx+1] == '}' {
 				exp = &AstLoop{from, -1, false, nil, ""}
 				end_idx = idx + 2
@@ -275,6 +291,9 @@ func parse_regexp_quantifier(regexp_token *Token, regexp string, index int) (*As
 				to, idx2, err := parse_regexp_number(regexp_token, regexp, idx+1)
 				if err != nil {
 					return nil, idx, err
+				}
+				if idx2 >= len(regexp) {
+					return nil, idx2, NewParseError(regexp_token, "Unexpected end of regexp. Expected '}'")
 				}
 				brace := regexp[idx2]
 				if brace != '}' {
@@ -287,6 +306,8 @@ func parse_regexp_quantifier(regexp_token *Token, regexp string, index int) (*As
 		} else if comma_or_brace == '}' {
 			exp = &AstLoop{from, from, false, nil, ""}
 			end_idx = idx + 1
+		} else {
+			return nil, idx, NewParseError(regexp_token, "Unexpected character. Expected ',' or '}'")
 		}
 	} else {
 		exp = nil
@@ -331,20 +352,17 @@ func parse_regexp_escape_characters(regexp_token *Token, regexp string, index in
 	} else if c == 'B' {
 		return &AstSubExpr{[]AstExpression{&AstList{true, []AstListable{&AstCharacterClass{false, ClassWordStart}, &AstCharacterClass{false, ClassWordEnd}}}}}, index + 1, nil
 	} else if c == 'k' {
-		d := regexp[index+1]
-		if d != '<' {
+		if index+1 >= len(regexp) || regexp[index+1] != '<' {
 			return nil, index + 1, NewParseError(regexp_token, "Expected a < character for named group reference")
 		}
 		// named capture group
 		current_index := index + 2
-		current := regexp[current_index]
 		identifier := ""
-		for unicode.IsDigit(rune(current)) || unicode.IsLetter(rune(current)) {
-			identifier += string(current)
+		for current_index < len(regexp) && (unicode.IsDigit(rune(regexp[current_index])) || unicode.IsLetter(rune(regexp[current_index]))) {
+			identifier += string(regexp[current_index])
 			current_index += 1
-			current = regexp[current_index]
 		}
-		if regexp[current_index] != '>' {
+		if current_index >= len(regexp) || regexp[current_index] != '>' {
 			return nil, current_index, NewParseError(regexp_token, "Unexpected charactrer in named capture group identifier.")
 		}
 		return &AstVariable{identifier}, current_index + 1, nil
@@ -357,6 +375,9 @@ func parse_regexp_groups(regexp_token *Token, regexp string, index int) (AstLite
 	// already consumed the parenthesis
 	c := regexp[index]
 	if c == '?' {
+		if index+2 >= len(regexp) {
+			return nil, index, NewParseError(regexp_token, "Unexpected end of regexp in group")
+		}
 		marker := regexp[index+1]
 		if marker == ':' {
 			// non capture group
@@ -364,7 +385,7 @@ func parse_regexp_groups(regexp_token *Token, regexp string, index int) (AstLite
 			if err != nil {
 				return nil, next_index, err
 			}
-			if regexp[next_index] != ')' {
+			if next_index >= len(regexp) || regexp[next_index] != ')' {
 				return nil, next_index, NewParseError(regexp_token, "Expected end parenthesis")
 			}
 			return &AstSubExpr{subexpr}, next_index + 1, nil
@@ -382,21 +403,19 @@ func parse_regexp_groups(regexp_token *Token, regexp string, index int) (AstLite
 			} else {
 				// named capture group
 				current_index := index + 2
-				current := regexp[current_index]
 				identifier := ""
-				for unicode.IsDigit(rune(current)) || unicode.IsLetter(rune(current)) {
-					identifier += string(current)
+				for current_index < len(regexp) && (unicode.IsDigit(rune(regexp[current_index])) || unicode.IsLetter(rune(regexp[current_index]))) {
+					identifier += string(regexp[current_index])
 					current_index += 1
-					current = regexp[current_index]
 				}
-				if regexp[current_index] != '>' {
+				if current_index >= len(regexp) || regexp[current_index] != '>' {
 					return nil, current_index, NewParseError(regexp_token, "Unexpected character in named capture group identifier.")
 				}
 				body, next_index, err := parse_regexp_disjunction(regexp_token, regexp, current_index+1)
 				if err != nil {
 					return nil, next_index, err
 				}
-				if regexp[next_index] != ')' {
+				if next_index >= len(regexp) || regexp[next_index] != ')' {
 					return nil, next_index, NewParseError(regexp_token, "Expected end parenthesis")
 				}
 				return &AstSubExpr{[]AstExpression{&AstDec{identifier, &AstSubExpr{body}}}}, next_index + 1, nil
@@ -412,7 +431,7 @@ func parse_regexp_groups(regexp_token *Token, regexp string, index int) (AstLite
 	if err != nil {
 		return nil, next_index, err
 	}
-	if regexp[next_index] != ')' {
+	if next_index >= len(regexp) || regexp[next_index] != ')' {
 		return nil, next_index, NewParseError(regexp_token, "Expected end parenthesis")
 	}
 	return &AstSubExpr{[]AstExpression{&AstDec{fmt.Sprintf("_%d", group_number), &AstSubExpr{subexpr}}}}, next_index + 1, nil
